@@ -67,9 +67,15 @@ func classes(sc *out.Scenario) []string {
 	return cl
 }
 
-func wellFormed(sc *out.Scenario) bool {
-	for _, c := range sc.Calls {
+// wellFormed: every call's argument is one well-formed element, or (sequential
+// scenarios) the call failed without writing anything: then the wire must hold
+// exactly the elements of the other calls.
+func wellFormed(sc *out.Scenario, o *out.Outcome) bool {
+	for i, c := range sc.Calls {
 		if c.Expect == nil && c.Kind != "close" {
+			if sc.Mode == "seq" && o != nil && !o.Wrote(i) {
+				continue
+			}
 			return false
 		}
 	}
@@ -91,7 +97,7 @@ func (x *runner) run(sc *out.Scenario) {
 		switch p.Clause {
 		case "not-flushed":
 			// only meaningful when every argument is one well-formed element
-			if wellFormed(sc) {
+			if wellFormed(sc, o) {
 				x.res.Fail(key(c, p.Clause), p.What, sc)
 			}
 		case "two-in-region", "unattributable", "duplicated":
@@ -108,7 +114,7 @@ func (x *runner) run(sc *out.Scenario) {
 			x.res.Fail(key(c, "write-after-close"), "the token writer accepts a token after its Close: "+c.Second, sc)
 		}
 	}
-	if wellFormed(sc) {
+	if wellFormed(sc, o) {
 		for _, f := range o.WireCheck(sc) {
 			var c *out.Call
 			if f.Call >= 0 {
